@@ -93,6 +93,43 @@ def pv_pair(mix, P, t_ref, ea=(25000.0, 60000.0)):
     return a, b
 
 
+def judge_membrane(case):
+    """membrane-level quantities under relabelling: the ideal selectivity of (first, second) is the reciprocal of that of (second, first) -
+    asked on the SAME membrane object in either order, and on the relabelled twin; pure-component quantities do not depend on the labelling."""
+    mix = U.get_mixture(case["mixture"])
+    c1, c2 = mix.first_component, mix.second_component
+    t, P = case["T"], case["P"]
+    v = []
+    for order in (0, 1):
+        mem = U.make_membrane(mix, P[0], P[1], t_ref=case["T"] - 9.0, ea1=25000.0, ea2=60000.0, units=case["units"])
+        twin = U.make_membrane(U.swap_mixture(mix), P[1], P[0], t_ref=case["T"] - 9.0, ea1=60000.0, ea2=25000.0, units=case["units"])
+        asks = [(c1, c2), (c2, c1)] if order == 0 else [(c2, c1), (c1, c2)]
+        got = {}
+        for a_, b_ in asks:
+            for rep_ in (0, 1):
+                st, r = core.call(mem.get_ideal_selectivity, t, a_, b_, case["calc"])
+                if st != "ok":
+                    return core.result("raised", nontrivial=False)
+                got.setdefault((a_ is c1), []).append(float(r))
+        s12, s21 = got[True][0], got[False][0]
+        if got[True][0] != got[True][1] or got[False][0] != got[False][1]:
+            v.append(core.viol("C06/membrane/selectivity_not_repeatable", "the same selectivity question asked twice on one membrane: %r, %r" % (got[True], got[False])))
+        if not core.close(s12 * s21, 1.0, 1e-12):
+            v.append(core.viol("C06/membrane/selectivity", "selectivity (1,2) = %r and (2,1) = %r on the same membrane object (asked %s first): product %r, not 1" % (
+                s12, s21, "(1,2)" if order == 0 else "(2,1)", s12 * s21)))
+        st, rt = core.call(twin.get_ideal_selectivity, t, twin.ideal_experiments.experiments[0].component, twin.ideal_experiments.experiments[-1].component, case["calc"])
+        if st == "ok" and not core.close(float(rt), s21, 1e-12):
+            v.append(core.viol("C06/membrane/selectivity", "relabelled twin membrane reports selectivity %r for its (first, second), the original %r for (second, first)" % (float(rt), s21)))
+        for c_, tc_ in ((c1, twin.ideal_experiments.experiments[-1].component), (c2, twin.ideal_experiments.experiments[0].component)):
+            sa, pa = core.call(mem.get_permeance, t, c_)
+            sb, pb = core.call(twin.get_permeance, t, tc_)
+            if sa == "ok" and sb == "ok" and not core.close(float(pa.value), float(pb.value), 1e-12):
+                v.append(core.viol("C06/membrane/permeance", "permeance of %s at %r K: %r on the membrane, %r on its relabelled twin" % (c_.name, t, float(pa.value), float(pb.value))))
+        if v:
+            break
+    return core.result("judged", digest=core.digest_of(case), viol=v)
+
+
 def judge_l0(case):
     mix = U.get_mixture(case["mixture"])
     sw = U.swap_mixture(mix)
@@ -385,12 +422,13 @@ def main(tier, seed):
           "steps": [1, 4] if q else [1, 3, 8], "x0": core.lat([0.1, 0.6], seed) if q else core.lat([0.1, 0.45, 0.9], seed), "basis": ["weight"],
           "T": core.lat([313.15, 353.15], seed)[:1] if q else core.lat([313.15, 353.15], seed), "P": [(1e-3, 2e-5)], "ea": [(25000.0, 60000.0)],
           "tref_offset": [0.0, -12.0], "precision": [PREC]}
+    core.run_space(rep, core.Space("L0m_membrane", {"mixture": mixes, "T": ts[:3], "P": [(1e-2, 1e-4), (3e-5, 4e-3)], "units": [U.Units.kg_m2_h_kPa, "SI", "GPU"], "calc": ["molar", "weight"]}), judge_membrane)
     core.run_space(rep, core.Space("L3_ideal_traces", l3, lambda c: ok(c) and not (c["kind"] == "ideal_iso" and c["prog"] != "none")), judge_l3)
     return rep.finish()
 
 
 def replay(body):
-    fn = {"L0_thermodynamics": judge_l0, "L1_solver": judge_l1, "L1c_default_precision_tiny_pressure": judge_l1, "L1b_one_permeance_supplied": judge_l1b, "L2_curves": judge_l2, "L2b_curves_from_permeances": judge_l2b, "L3_ideal_traces": judge_l3}[body["space"]]
+    fn = {"L0m_membrane": judge_membrane, "L0_thermodynamics": judge_l0, "L1_solver": judge_l1, "L1c_default_precision_tiny_pressure": judge_l1, "L1b_one_permeance_supplied": judge_l1b, "L2_curves": judge_l2, "L2b_curves_from_permeances": judge_l2b, "L3_ideal_traces": judge_l3}[body["space"]]
     r = fn(body["case"])
     for v in r["viol"]:
         print("violation key=%s%s: %s" % (v["key"], " [known %s]" % v["known"] if v["known"] else "", v["msg"]))
